@@ -13,6 +13,7 @@ import Ctrmml.Proofs.MdsReadParse
 import Ctrmml.Proofs.MdsReadOps
 import Ctrmml.Proofs.MdsFragRun
 import Ctrmml.Proofs.MdsFragSize
+import Ctrmml.Proofs.MdsFragEx
 namespace Ctrmml.MdsFile
 open Ctrmml Ctrmml.Mds Tables
 
@@ -1114,6 +1115,80 @@ example : PlatformClean {} ∧ platformFrag {} = true ∧ ∃ b, construct ex4So
     exact ⟨b, hc, q1, q2, h2, q4, C09_writer_outputs_in_frag hpc rfl hc, by rw [ht]; simp⟩
 
 end Ex4
+
+/-! #### non-vacuity with a loop and a subroutine: `A [c]2 *100`, `*100 d`
+(`Proofs/MdsFragEx`: one `runWriter` iteration per rewrite; the player's states are unified by `rfl`) -/
+section Ex5
+open Ctrmml.Player Ctrmml.MdsFragP
+
+def ex5Root : List Event := [⟨ev_LOOP_START, 0, 0, 0⟩, ⟨ev_NOTE, 40, 2, 2⟩, ⟨ev_LOOP_END, 2, 0, 0⟩, ⟨ev_JUMP, 100, 0, 0⟩]
+def ex5Sub : List Event := [⟨ev_NOTE, 42, 3, 1⟩]
+def ex5Song : Song := { tracks := [(0, ex5Root), (100, ex5Sub)] }
+def ex5W0 : WState := { drumEnabled := false, inDrum := false, trackId := 0 }
+
+theorem ex5_sub (c : Conv) : runWriter ex5Song {} ex5Sub 61 20000000 c { drumEnabled := false, inDrum := false, trackId := 100 } initState =
+    .ok (c, { drumEnabled := false, inDrum := false, trackId := 100, out := [⟨mds_NOTE + 42, 3⟩, ⟨mds_REST, 1⟩, ⟨mds_FINISH, 0⟩] }) := by
+  rw [run_hook_step rfl rfl rfl ((hook_vis rfl rfl).trans rfl)]
+  rw [run_end_step rfl rfl rfl]
+  rfl
+
+def ex5Conv : Conv := { subMap := [(400, 0)], subList := [[⟨mds_NOTE + 42, 3⟩, ⟨mds_REST, 1⟩, ⟨mds_FINISH, 0⟩]] }
+def ex5W : WState := { ex5W0 with out := [⟨mds_LP, 0⟩, ⟨mds_NOTE + 40, 2⟩, ⟨mds_REST, 2⟩, ⟨mds_LPF, 2⟩, ⟨mds_PAT, 0⟩, ⟨mds_FINISH, 0⟩] }
+
+/-- `A [c]2 *100` with `*100 d`: the writer's run on channel A, one loop iteration of `runWriter` at a time -/
+theorem ex5_run : runWriter ex5Song {} ex5Root 64 20000000 {} ex5W0 initState = .ok (ex5Conv, ex5W) := by
+  rw [run_hook_step rfl rfl rfl ((hook_vis rfl rfl).trans rfl)]   -- LOOP_START
+  rw [run_hook_step rfl rfl rfl ((hook_vis rfl rfl).trans rfl)]   -- NOTE, first pass
+  rw [run_hook_step rfl rfl rfl (hook_silent rfl (by decide))]     -- LOOP_END: back for the second pass
+  rw [run_hook_step rfl rfl rfl (hook_silent rfl (by decide))]     -- NOTE, second pass: silenced
+  rw [run_hook_step rfl rfl rfl ((hook_vis rfl rfl).trans rfl)]   -- LOOP_END, last pass
+  rw [run_hook_step rfl rfl rfl ((hook_vis rfl rfl).trans (hookVis_jump rfl (getSub_new rfl rfl (ex5_sub _))))]  -- JUMP
+  rw [run_hook_step rfl rfl rfl (hook_silent rfl (by decide))]     -- NOTE of the subroutine: inside a jump
+  rw [run_none_step rfl rfl rfl]                                   -- END of the subroutine: return
+  rw [run_end_step rfl rfl rfl]
+  rfl
+
+theorem ex5_construct : construct ex5Song {} none = assemble ex5Conv [(0, ex5W.out)] none := by
+  unfold construct
+  have hp : parseTracks ex5Song {} (channelIds ex5Song) {} [] = .ok (ex5Conv, [(0, ex5W.out)]) := by
+    show parseTracks ex5Song {} [0] {} [] = _
+    rw [parseTracks]
+    simp only [show ex5Song.track? 0 = some ex5Root from rfl]
+    rw [show ((0 : Nat) : Int) = 0 from rfl, show ({ drumEnabled := false, inDrum := false, trackId := 0 } : WState) = ex5W0 from rfl, ex5_run]
+    rfl
+  rw [hp]
+
+theorem ex5_hyps : (assemble ex5Conv [(0, ex5W.out)] none).toOption.map (fun b => (fullHyps ex5Song {} b, b.seq)) =
+    some (true, [0, 8, 0, 1, 0, 0, 0, 2, 0, 11, 250, 170, 1, 1, 251, 2, 254, 0, 255, 172, 2, 0, 255]) := by decide
+
+
+/-- all hypotheses of `C09_full_partial2` hold of this song; the conclusion of
+`C09_writer_outputs_in_frag` covers a channel list with a loop and a call, and a subroutine list -/
+example : PlatformClean {} ∧ platformFrag {} = true ∧ ∃ b, construct ex5Song {} none = .ok b ∧
+    (ex5Song.tracks.map (·.1)).Pairwise (· < ·) ∧ 0 < b.trackList.length ∧
+    exportSmall b [] [] [] = true ∧ (∀ s ∈ b.trackStreams ++ b.subStreams, s.length < 65536) ∧
+    (∀ l ∈ b.trackList.map (·.2) ++ b.conv.subList, MdsRead.Frag l) ∧
+    b.trackList.map (·.2) ++ b.conv.subList = [ex5W.out, [⟨mds_NOTE + 42, 3⟩, ⟨mds_REST, 1⟩, ⟨mds_FINISH, 0⟩]] := by
+  have hpc : PlatformClean {} := by intro k evs h; simp at h
+  refine ⟨hpc, rfl, ?_⟩
+  have hh := ex5_hyps
+  cases hb : assemble ex5Conv [(0, ex5W.out)] none with
+  | error e => rw [hb] at hh; simp [Except.toOption] at hh
+  | ok b =>
+    rw [hb] at hh
+    simp only [Except.toOption, Option.map_some, Option.some.injEq, Prod.mk.injEq] at hh
+    obtain ⟨h1, hseq⟩ := hh
+    obtain ⟨q1, q2, q3, q4⟩ := fullHyps_sound h1
+    have hc : construct ex5Song {} none = .ok b := by rw [ex5_construct, hb]
+    obtain ⟨_, _, _, _, _, _, _, hcv, ht, _⟩ := assemble_ok hb
+    have h2 : exportSmall b [] [] [] = true := by
+      apply C09_small_of_2GiB
+      · rw [hcv]; simp [usedSorted, usedBytes, ex5Conv]
+      · rw [hseq]; decide
+      · decide
+    exact ⟨b, hc, q1, q2, h2, q4, C09_writer_outputs_in_frag hpc rfl hc, by rw [ht, hcv]; rfl⟩
+
+end Ex5
 
 /-! ### non-vacuity: a conversion state with one subroutine, one data item and one channel track
 assembles, and the container is produced -/
